@@ -124,7 +124,7 @@ def model_check(ctx, module, cfg, workers=NCPU, timeout=900, heap='12g', extra=(
     return res
 
 
-def gen_traces(ctx, profile, seed, n, tags='verif', label=None, overrides=None):
+def gen_traces(ctx, profile, seed, n, tags='verif', label=None, overrides=None, env=None, crash_ok=False):
     """Run the online generator: n schedules from one seed. Returns (trace, sched)."""
     h = build_harness(ctx, tags)
     label = label or ('%s-%d' % (os.path.basename(profile).replace('.json', ''), seed))
@@ -136,8 +136,14 @@ def gen_traces(ctx, profile, seed, n, tags='verif', label=None, overrides=None):
         p.update(overrides)
         prof = ctx.path('profile-%s.json' % label)
         json.dump(p, open(prof, 'w'))
-    r = sh([h, 'gen', '-profile', prof, '-seed', str(seed), '-n', str(n), '-out', trace, '-sched', sched])
+    e = dict(os.environ)
+    if env:
+        e.update(env)
+    r = sh([h, 'gen', '-profile', prof, '-seed', str(seed), '-n', str(n), '-out', trace, '-sched', sched], env=e,
+           timeout=3600)
     if r.returncode != 0:
+        if crash_ok:
+            return dict(crash=r.stdout, profile=profile, seed=seed, n=n, env=env or {})
         raise Infra('generator failed (%s seed %d):\n%s' % (profile, seed, r.stdout[-3000:]))
     return trace, sched
 
